@@ -775,3 +775,85 @@ Proof.
     + intros Hpc Hroom. unfold step, step_with, rstep_with. rewrite Hpc. rewrite (Hw1 Hpc).
       destruct (Nat.eqb_spec (N.to_nat (cap s - (sqt s - sqh s))) 0) as [Hz|Hz]; [lia|reflexivity].
 Qed.
+
+Lemma frees_of_wakes i l : frees_of i (map OWakeB l) = 0.
+Proof. induction l as [|x l IH]; [reflexivity|]. exact IH. Qed.
+Lemma frees_of_consumed i l : frees_of i (map OConsumed l) = 0.
+Proof. induction l as [|x l IH]; [reflexivity|]. exact IH. Qed.
+
+(** ** C06 (and C01) under the poll / drop versus dispatch race.
+
+    Every reachable state, any interleaving (programs obeying [progs_ok]):
+    (a) the state box of an operation is freed at most once ([g_frees] counts the [OFree]
+    observations, clause (F)), and it is freed iff it is no longer allocated;
+    (b) no step ever takes the mutex inside a freed box ([g_bad], clause (U)): neither a future
+    call nor the ring thread's dispatch touches a state after its free;
+    (c) what the kernel owes an operation (submission queued, request in flight, completion posted
+    and not processed) is exactly one item while the operation is Running or Dropped-and-allocated
+    and nothing otherwise: a dropped running operation is not freed before its final completion
+    is dispatched, is never orphaned, and once freed nothing of it is left anywhere;
+    (d) the ring thread's dispatch of the completion of a Dropped operation frees it in that step;
+    a [DropOp] call on an operation that is not Running frees it at once and queues nothing;
+    (e) at most one cancel request per operation, only for an operation that is Dropped (a
+    never-started or finished one gets none), and every queued cancel names a Dropped operation. *)
+Definition race_state_reclaimed_exactly_once : Prop :=
+  (forall cap0 auto0 canc npolls progs es, progs_ok progs ->
+     let s := fst (run step (init cap0 auto0 canc npolls progs) es) in
+     (forall i, g_frees (ops s i) <= 1 /\ (g_frees (ops s i) = 1 <-> o_alloc (ops s i) = false))
+     /\ g_bad s = false
+     /\ (forall i, tokens s i = if o_alloc (ops s i) && live (o_st (ops s i)) then 1 else 0)
+     /\ (forall i, o_st (ops s i) = Dropped ->
+           (o_alloc (ops s i) = true /\ tokens s i = 1) \/ (o_alloc (ops s i) = false /\ tokens s i = 0 /\ g_frees (ops s i) = 1))
+     /\ (forall i, g_cancels (ops s i) <= 1 /\ (g_cancels (ops s i) = 1 -> o_st (ops s i) = Dropped))
+     /\ (forall i, In (Cancel i) (sq s) -> o_st (ops s i) = Dropped))
+  (* (F) the ledger of frees *)
+  /\ (forall s e i, g_frees (ops (fst (step s e)) i) = g_frees (ops s i) + frees_of i (snd (step s e)))
+  (* (U) what sets [g_bad] *)
+  /\ (forall s e, g_bad s = false -> g_bad (fst (step s e)) = true ->
+        exists i, o_alloc (ops s i) = false /\ o_holder (ops s i) = None
+                  /\ ((e = T 0 /\ exists q, cq s = COp i :: q)
+                      \/ exists k, e = T (S k) /\ exists c r, f_prog (thr s k) = c :: r /\ mentions i c = true))
+  (* (d) *)
+  /\ (forall s i q n, (r_pc s = RDisp \/ r_pc s = RDispSpin) -> r_n s = S n -> cq s = COp i :: q ->
+        o_holder (ops s i) = None -> o_st (ops s i) = Dropped ->
+        snd (step s (T 0)) = [OFree i (o_started (ops s i))] /\ o_alloc (ops (fst (step s (T 0))) i) = false)
+  /\ (forall s k i r, (f_pc (thr s k) = FStart \/ f_pc (thr s k) = FSpin) -> f_prog (thr s k) = DropOp i :: r ->
+        o_holder (ops s i) = None -> o_st (ops s i) <> Running ->
+        snd (step s (T (S k))) = [OFree i (o_started (ops s i))] /\ sq (fst (step s (T (S k)))) = sq s
+        /\ o_alloc (ops (fst (step s (T (S k)))) i) = false)
+  (* the ledger of cancel requests: one more exactly when [Cancel i] is appended to the queue *)
+  /\ (forall s e i, g_cancels (ops (fst (step s e)) i) = g_cancels (ops s i)
+                    \/ (g_cancels (ops (fst (step s e)) i) = S (g_cancels (ops s i))
+                        /\ sq (fst (step s e)) = sq s ++ [Cancel i])).
+
+Lemma race_state_reclaimed_exactly_once_holds : race_state_reclaimed_exactly_once.
+Proof.
+  split; [|split; [|split; [|split; [|split]]]].
+  - intros cap0 auto0 canc npolls progs es Hp s.
+    pose proof (reachable_inv cap0 auto0 canc npolls progs es Hp) as HI. fold s in HI.
+    split; [|split; [exact (inv_bad _ HI)|split; [exact (inv_tk _ HI)|split; [|split; [|exact (inv_C2 _ HI)]]]]].
+    + intros i. pose proof (inv_F _ HI i) as HF. destruct (o_alloc (ops s i)); rewrite HF; split; try lia;
+        split; intros; try discriminate; try lia; reflexivity.
+    + intros i Hd. pose proof (inv_tk _ HI i) as Ht. pose proof (inv_F _ HI i) as HF. rewrite Hd in Ht. cbn [live] in Ht.
+      destruct (o_alloc (ops s i)); cbn [andb] in Ht; [left|right]; auto.
+    + intros i. destruct (inv_C _ HI i) as [H|[H H']]; rewrite H; split; try lia; intros; try discriminate; assumption.
+  - intros s e i0.
+    step_split0 s e; rewrite ?frees_of_wakes, ?frees_of_consumed; unfold frees_of; cbn [filter length];
+      rewrite ?Nat.add_0_r; try reflexivity;
+      updcase i0 i; ssimpl; rewrite ?Nat.eqb_refl; cbn [length]; try reflexivity; try lia;
+      destruct (Nat.eqb_spec i i0); try congruence; cbn [length]; lia.
+  - intros s e. step_split0 s e; intros H0 H1; try congruence; rewrite H0 in H1; cbn [orb] in H1;
+      exists i; (split; [destruct (o_alloc (ops s i)); [discriminate|reflexivity]|split; [assumption|]]).
+    all: try (left; split; [reflexivity|eexists; reflexivity]).
+    all: right; exists k; split; [reflexivity|]; eexists _, _; split; [eassumption|cbn; apply Nat.eqb_refl].
+  - intros s i q n Hpc Hn Hq Hh Hd. unfold step, step_with, rstep_with, dispatch, o_update.
+    destruct Hpc as [Hpc|Hpc]; rewrite Hpc, Hn, Hq, Hh, Hd; cbv beta iota zeta.
+    all: match goal with |- context [advance ?x] => destruct (advance_eq x) as [q0 [n0 [p0 [E _]]]]; rewrite E end.
+    all: ssimpl; rewrite upd_same; ssimpl; split; reflexivity.
+  - intros s k i r Hpc Hp Hh Hns. unfold step, step_with, fstep, call_start.
+    destruct Hpc as [Hpc|Hpc]; rewrite Hpc, Hp, Hh; cbv beta iota zeta.
+    all: destruct (o_st (ops s i)); try congruence; ssimpl; rewrite upd_same; ssimpl; repeat split; reflexivity.
+  - intros s e i0. step_split0 s e; try (left; reflexivity);
+      try (updcase i0 i; [|left; reflexivity]); ssimpl; try (left; reflexivity); try (left; lia).
+    all: right; split; [lia|reflexivity].
+Qed.
